@@ -1,11 +1,15 @@
 // C12 harness: files and directories added to a file store come back identical.
 //
 // For every generated scenario the real code is driven through
-//   file.Store.Add -> oras.PackManifest -> oras.Copy -> {memory | OCI layout} -> oras.Copy/CopyGraph -> second file.Store
+//
+//	file.Store.Add -> oras.PackManifest -> oras.Copy -> {memory | OCI layout} -> oras.Copy/CopyGraph -> second file.Store
+//
 // and the harness writes
-//   cases.txt  model inputs (tar entry list T, extraction X, reproducibility P, name/digest machine M, unpack U)
-//   impl.txt   what the implementation did (decoded tar headers, restored listing, descriptor equality, names, push verdicts)
-//   oracle.txt direct violations of the property judged against the generator's own tree (never against the model)
+//
+//	cases.txt  model inputs (tar entry list T, extraction X, reproducibility P, name/digest machine M, unpack U)
+//	impl.txt   what the implementation did (decoded tar headers, restored listing, descriptor equality, names, push verdicts)
+//	oracle.txt direct violations of the property judged against the generator's own tree (never against the model)
+//
 // Everything on disk lives under -dir.
 package main
 
@@ -1328,10 +1332,62 @@ func tamperCases(ctx context.Context, sc *Scenario, scid, tail, work string, i i
 	}
 }
 
+// enumSmall runs every directory with at most two entries "a" and "b", each a file, a symlink
+// with one of nine relative targets, or a directory holding nothing, a file or such a symlink:
+// all interactions of link targets with the extraction order in a small scope.
+func enumSmall(preserves []bool) {
+	targets := []string{".", "..", "a", "b", "a/b", "b/a", "../a", "a/../b", "b/x/y"}
+	shapes := func(name string) []*Node {
+		var out []*Node
+		f := func(n string) *Node {
+			return &Node{Kind: "f", Name: hx(n), Mode: 0o640, Mtime: baseTime, Mtime2: baseTime, Seed: 5, Len: 3}
+		}
+		l := func(n, t string) *Node {
+			return &Node{Kind: "l", Name: hx(n), Mtime: baseTime, Mtime2: baseTime, Target: hx(t)}
+		}
+		out = append(out, f(name))
+		for _, t := range targets {
+			out = append(out, l(name, t))
+		}
+		inner := []*Node{nil, f("a")}
+		for _, t := range targets {
+			inner = append(inner, l("b", t))
+		}
+		for _, in := range inner {
+			d := &Node{Kind: "d", Name: hx(name), Mode: 0o750, Mtime: baseTime, Mtime2: baseTime}
+			if in != nil {
+				d.Children = []*Node{in}
+			}
+			out = append(out, d)
+		}
+		return out
+	}
+	as, bs := append([]*Node{nil}, shapes("a")...), append([]*Node{nil}, shapes("b")...)
+	n := 0
+	for _, pres := range preserves {
+		for _, a := range as {
+			for _, b := range bs {
+				root := &Node{Kind: "d", Mode: 0o755, Mtime: baseTime, Mtime2: baseTime}
+				if a != nil {
+					root.Children = append(root.Children, cloneNode(a))
+				}
+				if b != nil {
+					root.Children = append(root.Children, cloneNode(b))
+				}
+				sc := &Scenario{Op: "S", Umask: 0o022, Repro: true, Preserve: pres, Via: "memory",
+					Items: []Item{{Name: hx("t"), Tree: root}}}
+				runScenario(sc)
+				n++
+			}
+		}
+	}
+	run.Extra["small_scope_trees"] = n
+}
+
 func main() {
 	run = common.Start("C12")
 	defer run.Finish()
-	run.Rule = "scenario = 1-3 files/directories (random trees: nesting <= 5, empty dirs/files, names up to 220 bytes and non-ASCII, relative symlinks, assorted modes, sizes 0-2 MiB, some items with equal content) x options (TarReproducible, PreservePermissions, SkipUnpack, ForceCAS, IgnoreNoName, umask) x intermediate store (memory, OCI layout); distinct = distinct restored listing / entry list / descriptor; non-trivial = a directory tree with at least one entry, a duplicate-content manifest, a tampered descriptor or a failing extraction"
+	run.Rule = "scenario = 1-3 files/directories (random trees: nesting <= 5, empty dirs/files, names up to 220 bytes and non-ASCII, relative symlinks, assorted modes, sizes 0-2 MiB, some items with equal content) x options (TarReproducible, PreservePermissions, SkipUnpack, ForceCAS, IgnoreNoName, umask) x intermediate store (memory, OCI layout); distinct = distinct restored listing / entry list / descriptor; non-trivial = a directory tree with at least one entry, a duplicate-content manifest, a tampered descriptor or a failing extraction; plus the exhaustive small scope: every directory with entries a, b each a file / symlink (9 targets) / directory with nothing, a file or such a symlink"
 	if run.Replay != "" {
 		data, err := os.ReadFile(run.Replay)
 		if err != nil {
@@ -1352,7 +1408,12 @@ func main() {
 		}
 		return
 	}
-	n := run.Scale(700, 12000)
+	if run.Thorough() {
+		enumSmall([]bool{false, true})
+	} else {
+		enumSmall([]bool{true})
+	}
+	n := run.Scale(600, 12000)
 	for i := 0; i < n; i++ {
 		sc := genScenario(run.Rand.Fork(), i)
 		runScenario(sc)
